@@ -374,7 +374,8 @@ SPEC = PropSpec(
                  "inf, -inf, NaN, smallest subnormal, largest finite, an inexact value}; MIL-STD-1750A for twelve words "
                  "covering sign/exponent extremes in both byte orders; the sizes the constructor admits; and the "
                  "structural struct-code table (8*calcsize(code) = size). IEEE bit-exactness itself is struct's."
-                 ' Also the spelling twosCompliment and integers whose declared context calibrators do not apply (they stay integers).'),
+                 ' Also the spelling twosCompliment and integers whose declared context calibrators do not apply (they stay integers).'
+                 ' R4.pure: nothing reachable from the numeric decoders writes to an encoding, a class or a module-level object (effect analysis); R4.fresh: every parsed packet owns a fresh cursor; the tolerated spellings IEEE-754 / MIL-1750A are constructed in sequence with the others.'),
     rule_doc="R4.int per (encoding, byte order) over widths x offsets x patterns; R4.float per (format, byte order, spelling); R4.tab per table row",
     assumptions=["struct.unpack implements IEEE-754 binary16/32/64", "MIL-STD-1750A: value = mantissa/2**23 * 2**exponent, both two's complement",
                  "cursor reads are exact (C03)"],
